@@ -294,7 +294,7 @@ namespace
     };
 
     // ---------------------------------------------------------------- static_string<N>
-    enum { T_CTOR_CSTR, T_PUSH, T_CSTR, T_CTOR_PTR_N, T_CLEAR, T_PLUS_EQ, T_COPY, T_N };
+    enum { T_CTOR_CSTR, T_PUSH, T_CSTR, T_CTOR_PTR_N, T_CLEAR, T_PLUS_EQ, T_COPY, T_SPLIT, T_N };
     template <size_t N> void run_ss(const Plan &p, Trace &tr, Result &res)
     {
         typedef igris::static_string<N> SS;
@@ -324,7 +324,12 @@ namespace
                 size_t len = (size_t)mod(arg(o, 2), 2 * N + 1);
                 // the source lives in an exact-size heap block: reading past its terminator is caught too
                 char *src = (char *)simalloc::raw_alloc(len + 1);
-                for (size_t i = 0; i < len; i++) src[i] = (char)('a' + (val + i) % 26);
+                for (size_t i = 0; i < len; i++)
+                {
+                    uint64_t z = (uint64_t)val * 1000003 + i;
+                    uint64_t h = splitmix64(z);
+                    src[i] = (val & 1) ? "abcdxy"[h % 6] : (char)('a' + h % 26); // small alphabet: many short tokens for split
+                }
                 src[len] = 0;
                 if (len > N) { overflow_offered = true; probe("ctor_more_than_N_elements"); fault("input_beyond_capacity"); }
                 if (len == 2 * N) probe("ctor_2N_elements");
@@ -359,6 +364,35 @@ namespace
                 if (m.size() < N) m.push_back((char)('0' + val % 10));
 #endif
                 break;
+            case T_SPLIT:
+            {
+#ifdef C14_TWIN
+                // split into a static_vector<static_string<4>, 3>: more tokens than 3 and tokens longer than 4 must be
+                // dropped / cut, never written outside the result
+                char delim = (char)('a' + val % 4);
+                auto parts = x->template split<3, 4>(delim);
+                std::vector<std::string> want;
+                size_t i = 0;
+                while (i < m.size())
+                {
+                    while (i < m.size() && m[i] == delim) i++;
+                    if (i >= m.size()) break;
+                    size_t st = i;
+                    while (i < m.size() && m[i] != delim) i++;
+                    want.push_back(m.substr(st, std::min<size_t>(i - st, 4)));
+                    if (i - st > 4) { overflow_offered = true; probe("split_token_longer_than_capacity"); }
+                }
+                if (want.size() > 3) { overflow_offered = true; probe("split_more_tokens_than_capacity"); want.resize(3); }
+                if (parts.size() != want.size()) violate("C14/split-count", "split gives %zu tokens, expected %zu (first 3 of the runs of non-delimiter characters)", parts.size(), want.size());
+                for (size_t k2 = 0; k2 < want.size(); k2++)
+                {
+                    if (parts[k2].size() > 4) violate("C14/string-over-capacity@split", "split token %zu holds %zu characters in a static_string<4>", k2, parts[k2].size());
+                    if (want[k2] != std::string(parts[k2].c_str(), parts[k2].size())) violate("C14/split-content", "split token %zu is '%s', expected '%s'", k2, parts[k2].c_str(), want[k2].c_str());
+                }
+                probe("split");
+#endif
+                break;
+            }
             case T_COPY:
             {
                 // implicit copy: a bitwise copy of a well-formed string is well-formed
